@@ -759,6 +759,8 @@ func main() {
 	sort.Strings(entry) // map literal: order is irrelevant
 	prog := entryProg(ff, events)
 
+	genMigrate(repo, out, statuses)
+
 	hdr := "(* GENERATED by dt2coq from /repo on every run. Do not edit. *)\nFrom Coq Require Import List NArith String.\nImport ListNotations.\nLocal Open Scope N_scope.\n\n"
 
 	// GenStatus.v
